@@ -142,6 +142,87 @@ impl<I: Index> SimpleTermIndex<I> {
     }
 }
 
+/// Verification hooks: read-only accessors used by the external model-checking harness.
+#[cfg(feature = "sophia_verif")]
+impl<I: Index> SimpleTermIndex<I> {
+    /// The terms of this index, in index order.
+    pub fn verif_terms(&self) -> &[SimpleTerm<'static>] {
+        &self.i2t
+    }
+
+    /// Audit the internal consistency of this index, *without dereferencing* any string
+    /// held by `i2t`: every borrowed string of `i2t[i]` must point into the key that
+    /// `t2i` (of this very index) maps to `i`.
+    pub fn verif_audit(&self) -> Vec<String> {
+        fn parts(t: &SimpleTerm<'static>, out: &mut Vec<(usize, usize, bool)>) {
+            let mut push = |m: &sophia_api::MownStr<'static>| {
+                let s: &str = m;
+                out.push((s.as_ptr() as usize, s.len(), m.is_owned()));
+            };
+            match t {
+                SimpleTerm::Iri(i) => push(std::ops::Deref::deref(i)),
+                SimpleTerm::BlankNode(b) => push(std::ops::Deref::deref(b)),
+                SimpleTerm::LiteralDatatype(l, d) => {
+                    push(l);
+                    push(std::ops::Deref::deref(d));
+                }
+                SimpleTerm::LiteralLanguage(l, t) => {
+                    push(l);
+                    push(std::ops::Deref::deref(t));
+                }
+                SimpleTerm::Variable(v) => push(std::ops::Deref::deref(v)),
+                SimpleTerm::Triple(tr) => {
+                    for c in tr.iter() {
+                        parts(c, out);
+                    }
+                }
+            }
+        }
+        let mut issues = vec![];
+        if self.t2i.len() != self.i2t.len() {
+            issues.push(format!(
+                "t2i has {} entries, i2t has {}",
+                self.t2i.len(),
+                self.i2t.len()
+            ));
+        }
+        let mut seen = vec![false; self.i2t.len()];
+        for (k, v) in &self.t2i {
+            let i = v.into_usize();
+            if i >= self.i2t.len() {
+                issues.push(format!("index {i} out of range"));
+                continue;
+            }
+            if std::mem::replace(&mut seen[i], true) {
+                issues.push(format!("index {i} mapped twice"));
+            }
+            let t = &self.i2t[i];
+            if std::mem::discriminant(k) != std::mem::discriminant(t) {
+                issues.push(format!("index {i}: kind mismatch"));
+                continue;
+            }
+            let mut kp = vec![];
+            parts(k, &mut kp);
+            let mut tp = vec![];
+            parts(t, &mut tp);
+            if kp.len() != tp.len() {
+                issues.push(format!("index {i}: shape mismatch"));
+                continue;
+            }
+            for (n, ((kptr, klen, _), (tptr, tlen, towned))) in kp.iter().zip(&tp).enumerate() {
+                if klen != tlen {
+                    issues.push(format!("index {i} part {n}: length mismatch"));
+                } else if !*towned && *tlen > 0 && kptr != tptr {
+                    issues.push(format!(
+                        "index {i} part {n}: borrowed string at {tptr:#x} is not the one owned by this index's key ({kptr:#x})"
+                    ));
+                }
+            }
+        }
+        issues
+    }
+}
+
 impl<I: Index> TermIndex for SimpleTermIndex<I> {
     type Term = SimpleTerm<'static>;
     type Index = I;
